@@ -1,11 +1,12 @@
 ---------------------------- MODULE RunSchedules ----------------------------
 (* The writer schedules of RunMode's bounded streams, for the real-process half of C13: every way the child can split a
-   stream of n abstract bytes into writes (RunMode!ChildWrite chooses any k in 1..remaining each time). *)
+   stream of n abstract bytes into writes (RunMode!ChildWrite chooses any k in 1..remaining each time), each with and without
+   RunMode!ChildCloseErr (the program closes its standard error and keeps running before it exits). *)
 EXTENDS Integers, Sequences, FiniteSets, TLC, Json, SequencesExt
 CONSTANT N
 RECURSIVE Comps(_)
 Comps(n) == IF n = 0 THEN {<<>>} ELSE UNION {{<<k>> \o c : c \in Comps(n - k)} : k \in 1..n}
 VARIABLE x
-Init == x = PrintT(<<"SCHEDULES", ToJson(SetToSeq(Comps(N)))>>)
+Init == x = PrintT(<<"SCHEDULES", ToJson(SetToSeq({[writes |-> c, closeErr |-> b] : c \in Comps(N), b \in BOOLEAN}))>>)
 Next == UNCHANGED x
 =============================================================================
